@@ -104,12 +104,8 @@ structure BrentSt (α : Type) where
 
 def goldC : α := one - (one / (1.61803398874989484820458683437 : α))
 
-/-- one pass of `brent()`'s `while (1)` body; `.inl (x, fx)` = the loop ended -/
-def brentStep (eps t : α) (fline : α → α) (s : BrentSt α) : (α × α) ⊕ BrentSt α :=
-  let m := (0.5 : α) * (s.a + s.b)
-  let tol := eps * abs s.x + t
-  if !(isFinite m) || !(isFinite s.x) then .inl (s.x, one / zero) else
-  if leb (abs (s.x - m)) ((2.0 : α) * tol - (0.5 : α) * (s.b - s.a)) then .inl (s.x, s.fx) else
+/-- the trial point of one pass of `brent()`: parabolic interpolation or golden section → `(u, d, e)` -/
+def brentTrial (tol m : α) (s : BrentSt α) : α × α × α :=
   -- parabolic interpolation
   let (p, q, r, e) : α × α × α × α :=
     if gtb (abs s.e) tol then
@@ -131,17 +127,29 @@ def brentStep (eps t : α) (fline : α → α) (s : BrentSt α) : (α × α) ⊕
       let e := if ltb s.x m then s.b - s.x else s.a - s.x
       (goldC * e, e)
   let u := if geb (abs d) tol then s.x + d else if gtb d zero then s.x + tol else s.x - tol
-  let fu := fline u
+  (u, d, e)
+
+/-- the bookkeeping of one pass of `brent()` after `fu = f(u)` -/
+def brentUpdate (s : BrentSt α) (u fu d e : α) : BrentSt α :=
   if leb fu s.fx then
     let (a, b) := if ltb u s.x then (s.a, s.x) else (s.x, s.b)
-    .inr { a := a, b := b, v := s.w, fv := s.fw, w := s.x, fw := s.fx, x := u, fx := fu, d := d, e := e }
+    { a := a, b := b, v := s.w, fv := s.fw, w := s.x, fw := s.fx, x := u, fx := fu, d := d, e := e }
   else
     let (a, b) := if ltb u s.x then (u, s.b) else (s.a, u)
     if leb fu s.fw || eqb s.w s.x then
-      .inr { s with a := a, b := b, v := s.w, fv := s.fw, w := u, fw := fu, d := d, e := e }
+      { s with a := a, b := b, v := s.w, fv := s.fw, w := u, fw := fu, d := d, e := e }
     else if leb fu s.fv || eqb s.v s.x || eqb s.v s.w then
-      .inr { s with a := a, b := b, v := u, fv := fu, d := d, e := e }
-    else .inr { s with a := a, b := b, d := d, e := e }
+      { s with a := a, b := b, v := u, fv := fu, d := d, e := e }
+    else { s with a := a, b := b, d := d, e := e }
+
+/-- one pass of `brent()`'s `while (1)` body; `.inl (x, fx)` = the loop ended -/
+def brentStep (eps t : α) (fline : α → α) (s : BrentSt α) : (α × α) ⊕ BrentSt α :=
+  let m := (0.5 : α) * (s.a + s.b)
+  let tol := eps * abs s.x + t
+  if !(isFinite m) || !(isFinite s.x) then .inl (s.x, one / zero) else
+  if leb (abs (s.x - m)) ((2.0 : α) * tol - (0.5 : α) * (s.b - s.a)) then .inl (s.x, s.fx) else
+  let (u, d, e) := brentTrial tol m s
+  .inr (brentUpdate s u (fline u) d e)
 
 def brentLoop (eps t : α) (fline : α → α) : Nat → BrentSt α → Option (α × α)
   | 0, _ => none
